@@ -301,24 +301,34 @@ package yubiagent
 //@ ghost func slotLine(l string) bool = len(l) >= 7 && substr(l, 0, 4) == "Slot"
 //@ # j-th line of the tool output as split by the p-th strings.Split call (contents at the time of that call)
 //@ ghost func lineAt(p int, j int) string = at(retc(strings.Split, p, 0), off(ret(strings.Split, p, 0)), j)
+//@ # scount(t, k): number of Slot lines among the first k lines of the text t (definition by recursion on k)
+//@ ghost func scount(t string, k int) int
+//@ # (the step is instantiated only where the count of the first k lines and the k-th line both occur: no unfolding chain)
+//@ axiom scount_zero(t string): scount(t, 0) == 0
+//@ axiom scount_step(t string, k int): trig(k >= 0 ==> scount(t, k + 1) == scount(t, k) + (slotLine(splitPart(t, "\n", k)) ? 1 : 0), scount(t, k), splitPart(t, "\n", k))
 //@ func (*server).ListSlots(s)
 //@   requires s != nil
 //@   let e0 = old(calls(Cmd.Output))
+//@   let t = str(ret(Cmd.Output, e0, 0))
+//@   # exactly the Slot lines, in order: the i-th Slot line of the output gives slots[i], and there is nothing else
+//@   ensures [exactly-the-Slot-lines-in-order] (!s.remote && err == nil) ==> (len(slots) == scount(t, splitCount(t, "\n")) &&
+//@     forall(j, 0 <= j && j < splitCount(t, "\n"), slotLine(splitPart(t, "\n", j)) ==>
+//@       (scount(t, j) < len(slots) && slots[scount(t, j)] == substr(splitPart(t, "\n", j), 5, 7))))
 //@   ensures [refused-in-remote-mode] s.remote ==> (slots == nil && err != nil && calls(Cmd.Output) == e0)
 //@   ensures [tool-failure-is-an-error] (!s.remote && calls(Cmd.Output) == e0 + 1 && ret(Cmd.Output, e0, 1) != nil) ==> (slots == nil && err == ret(Cmd.Output, e0, 1))
 //@   ensures [one-status-query] !s.remote ==> calls(Cmd.Output) == e0 + 1
 //@   let p0 = old(calls(strings.Split))
 //@   ensures [output-split-into-lines] (!s.remote && err == nil) ==> (calls(strings.Split) == p0 + 1 && arg(strings.Split, p0, 0) == str(ret(Cmd.Output, e0, 0)) && arg(strings.Split, p0, 1) == "\n")
 //@   ensures [two-characters-per-slot] (!s.remote && err == nil) ==> forall(k, 0 <= k && k < len(slots), len(slots[k]) == 2)
-//@   ensures [every-Slot-line-contributes] (!s.remote && err == nil) ==> forall(j, 0 <= j && j < len(ret(strings.Split, p0, 0)), slotLine(lineAt(p0, j)) ==>
-//@     exists(k, 0 <= k && k < len(slots), slots[k] == substr(lineAt(p0, j), 5, 7)))
 //@   loop 1:
 //@     invariant !s.remote && calls(Cmd.Output) == e0 + 1 && ret(Cmd.Output, e0, 1) == nil && (slots == nil || fresh(arr(slots)))
 //@     invariant calls(strings.Split) == p0 + 1 && arg(strings.Split, p0, 0) == str(ret(Cmd.Output, e0, 0)) && arg(strings.Split, p0, 1) == "\n"
 //@     invariant forall(j, 0 <= j && j < len(ret(strings.Split, p0, 0)), ret(strings.Split, p0, 0)[j] == lineAt(p0, j))
 //@     invariant [two-characters-per-slot] forall(k, 0 <= k && k < len(slots), len(slots[k]) == 2)
-//@     invariant [every-Slot-line-contributes] forall(j, 0 <= j && j <= rangeindex, slotLine(lineAt(p0, j)) ==>
-//@       exists(k, 0 <= k && k < len(slots), slots[k] == substr(lineAt(p0, j), 5, 7)))
+//@     invariant len(ret(strings.Split, p0, 0)) == splitCount(t, "\n") && forall(j, 0 <= j && j < len(ret(strings.Split, p0, 0)), lineAt(p0, j) == splitPart(t, "\n", j))
+//@     invariant len(slots) == scount(t, rangeindex + 1)
+//@     invariant [exactly-the-Slot-lines-in-order] forall(j, 0 <= j && j <= rangeindex, slotLine(splitPart(t, "\n", j)) ==>
+//@       (scount(t, j) < len(slots) && slots[scount(t, j)] == substr(splitPart(t, "\n", j), 5, 7)))
 
 //@ func (*server).ReadSlot(s, slot)
 //@   requires s != nil
